@@ -26,6 +26,11 @@ func checkC10(w *World, r *Report) {
 	c10HTTPCache(w, r, ci)
 	c10NoWriteBack(w, r, ci)
 	c10OverridePresence(w, r)
+	// the finalizer caches a token for the ttl it hands to the signer: the signer must make the token
+	// live exactly that long (shared with C16.1)
+	if signer, _ := findSigner(w); signer != nil {
+		c16SystemClaims(w, r, signer)
+	}
 }
 
 // cacheCalls lists calls of cache.Cache.<name> in non-mock module functions outside internal/cache.
